@@ -526,12 +526,12 @@ fn exhaustive(ctx: &Ctx, emit: Emit) -> String {
 pub fn def() -> PropertyDef {
     PropertyDef {
         id: "C01",
-        rule: "0-3 prior equations then `u == v` over literals of every kind, 4 shared variables, proper/improper lists and 6 compound kinds (depth <= 3); v is a mutation of u with weight 0.6 (sub-term -> variable, variable buried under a constructor, children swapped, tag/arity/tail changed). Oracle: Robinson unification with occurs check on the AST (success both directions, cycle-freedom of the raw substitution, walk*(u)==walk*(v), image of (q0..q3) isomorphic to the reference mgu, symmetry), the same at query level, and an instance check: the program extended with (q0..q3)==g has an answer iff g unifies with the constraints. Non-trivial = both sides non-variable sharing a variable, or priors present; distinct = hash of the printed case. Family `scale`: the same oracles with one large dimension - a variable or small term against a spine of up to 400 (thorough 2000) levels (list, improper list, successor nesting, Pair/Node nesting, head nesting) that may contain it deep down, two long near-identical terms, chains of up to 400 var-var equations posted ascending / descending / shuffled and oriented forward / backward / mixed, then a member of the chain is decided",
+        rule: "0-3 prior equations then `u == v` over literals of every kind, 4 shared variables, proper/improper lists and 6 compound kinds (depth <= 3); v is a mutation of u with weight 0.6 (sub-term -> variable, variable buried under a constructor, children swapped, tag/arity/tail changed). Oracle: Robinson unification with occurs check on the AST (success both directions, cycle-freedom of the raw substitution, walk*(u)==walk*(v), image of (q0..q3) isomorphic to the reference mgu, symmetry), the same at query level, and an instance check: the program extended with (q0..q3)==g has an answer iff g unifies with the constraints. Non-trivial = both sides non-variable sharing a variable, or priors present; distinct = hash of the printed case. Family `scale`: the same oracles with one large dimension - a variable or small term against a spine of up to 400 (thorough 1000) levels (list, improper list, successor nesting, Pair/Node nesting, head nesting) that may contain it deep down, two long near-identical terms, chains of up to 400 var-var equations posted ascending / descending / shuffled and oriented forward / backward / mixed, then a member of the chain is decided",
         assumptions: vec!["the 60-line reference unifier (model/unify.rs) is correct; it has its own unit test and shares no code with the implementation"],
         families: vec![
             Family { name: "all-kinds", max_len: 96, quick: 150_000, thorough: 4_000_000, run: run_family },
             Family { name: "lists-dense", max_len: 96, quick: 150_000, thorough: 4_000_000, run: run_lists },
-            Family { name: "scale", max_len: 64, quick: 24_000, thorough: 400_000, run: run_scale },
+            Family { name: "scale", max_len: 64, quick: 24_000, thorough: 240_000, run: run_scale },
         ],
         fixed: vec![Fixed { name: "occurs-through-prior-and-compound", run: fixed_occurs }, Fixed { name: "improper-tails", run: fixed_improper }],
         witnesses: vec![],
